@@ -155,6 +155,28 @@ def spellings(ctx, project, sp, rng):
         yield "synced", JSONAttrDict(data=json.loads(json.dumps(sp)))
     except Exception as e:  # invalid keys for attr dicts are not part of the quantifier
         ctx.count("synced_spelling_rejected")
+    # a file-backed collection that holds the value but has not been loaded by this handle yet (a job document
+    # reached through a new handle), on its own and as a nested value
+    _state["nspell"] = _state.get("nspell", 0) + 1
+    if _state["nspell"] % 8 == 0 and isinstance(sp, dict):
+        import signac
+        carrier_sp = {"zz_carrier": True}
+        try:
+            project.open_job(carrier_sp).document.reset(json.loads(json.dumps(sp)))
+            ok = True
+        except Exception:
+            ctx.count("synced_spelling_rejected")
+            ok = False
+        if ok:
+            ctx.count("unloaded_document_spellings")
+            yield "unloaded-document", signac.Project(project.path).open_job(carrier_sp).document
+            subs = [k for k, v in sp.items() if isinstance(v, dict) and v]
+            if subs:
+                k = subs[0]
+                project.open_job(carrier_sp).document.reset(json.loads(json.dumps(sp[k])))
+                nested = {kk: vv for kk, vv in json.loads(json.dumps(sp)).items() if kk != k}
+                nested[k] = signac.Project(project.path).open_job(carrier_sp).document
+                yield "nested-unloaded-document", nested
     other = project.open_job(json.loads(json.dumps(sp)))
     yield "jobsp", other.sp
     yield "jobsp_call", other.statepoint()
@@ -284,19 +306,37 @@ def check_sp(ctx, project, sp, rng, do_init):
                 ctx.monitor("reload_rederives_id")
                 with open(os.path.join(d, model.SP_FILE), "w") as f:
                     json.dump(other, f)
-                h = signac.Project(project.path).open_job(id=expected)
-                for rnd in range(2):
-                    for how, get in (("statepoint()", lambda: h.statepoint()), ("sp", lambda: dict(h.sp)),
-                                     ("cached_statepoint", lambda: dict(h.cached_statepoint))):
-                        try:
-                            v = model.plain(get())
-                        except Exception:
-                            ctx.count("reload_refused")
-                            continue
-                        if h.id != model.model_id(v):
-                            ctx.violation("handle-presents-value-with-other-hash",
-                                          "a handle opened by id presents a state point that does not hash to its id",
-                                          {"id": h.id, "file": other, "presented": v, "accessor": how, "ask": rnd})
+                handles = [("fresh", signac.Project(project.path).open_job(id=expected))]
+                # ... nor after a session tried to refresh the persistent cache over that file
+                P = signac.Project(project.path)
+                for _ in range(2):
+                    try:
+                        P.update_cache()
+                    except Exception:
+                        ctx.count("update_cache_refused")
+                for tag, pr in (("same-session-after-update_cache", P), ("fresh-after-update_cache", signac.Project(project.path))):
+                    try:
+                        handles.append((tag, pr.open_job(id=expected)))
+                    except Exception:
+                        ctx.count("reload_refused")
+                for tag, h in handles:
+                    for rnd in range(2):
+                        for how, get in (("statepoint()", lambda: h.statepoint()), ("sp", lambda: dict(h.sp)),
+                                         ("cached_statepoint", lambda: dict(h.cached_statepoint))):
+                            try:
+                                v = model.plain(get())
+                            except Exception:
+                                ctx.count("reload_refused")
+                                continue
+                            if h.id != model.model_id(v):
+                                ctx.violation("handle-presents-value-with-other-hash",
+                                              "a handle opened by id presents a state point that does not hash to its id",
+                                              {"id": h.id, "file": other, "presented": v, "accessor": how, "ask": rnd,
+                                               "handle": tag})
+                try:
+                    os.remove(os.path.join(project.path, model.CACHE_FILE))
+                except FileNotFoundError:
+                    pass
             with open(os.path.join(d, model.SP_FILE), "w") as f:
                 json.dump(sp, f)
         _state["ninit"] += 1
